@@ -2,7 +2,7 @@
 # Miri litmus programs for property C07 (and the D5 part of C01).  NOT part of the quick check:
 # run by hand or in the thorough tier.
 #
-#   harness/litmus/run.sh [program ...]          programs: d4_debt_return d5_stale_candidate (default: all)
+#   harness/litmus/run.sh [program ...]          programs: d4_debt_return d5_stale_candidate d6_swap_handover d7_publication_reuse (default: all)
 #
 #   VERIF_REPO=<dir>     arc-swap checkout to test (default /repo; never written to)
 #   LITMUS_SEEDS_D4="0 1 2 3"  LITMUS_SEEDS_D5="0 1 2 3 4 5 6 7"   Miri scheduler/weak-memory seeds
@@ -13,7 +13,8 @@
 # or does not build / times out.  Expected: PASS on the unchanged crate; d4_debt_return FAILS when the
 # failure ordering of Debt::pay (src/debt/mod.rs) is put back to Relaxed; d5_stale_candidate FAILS
 # (for some seeds) when the candidate read of HybridProtection::fallback (src/strategy/hybrid.rs) is
-# put back to Acquire.
+# put back to Acquire; d7_publication_reuse FAILS when the confirming read of HybridProtection::attempt
+# no longer acquires (e.g. `fence(SeqCst); load(Relaxed)`): a publication at a reused address is then not acquired.
 set -u
 HERE="$(cd "$(dirname "$0")" && pwd)"
 ROOT="$(cd "$HERE/../.." && pwd)"
@@ -29,7 +30,7 @@ export CARGO_NET_OFFLINE=true
 export RUSTFLAGS=""
 
 progs=("$@")
-[ ${#progs[@]} -eq 0 ] && progs=(d4_debt_return d5_stale_candidate d6_swap_handover)
+[ ${#progs[@]} -eq 0 ] && progs=(d4_debt_return d5_stale_candidate d6_swap_handover d7_publication_reuse)
 rc=0
 for p in "${progs[@]}"; do
   if [ ! -d "$HERE/$p" ]; then echo "FAIL $p (no such program)"; rc=1; continue; fi
